@@ -20,7 +20,8 @@
    dict_ok / opt_dict_ok (a dict has distinct keys). *)
 From Coq Require Import ZArith List Bool String.
 Require Import Rig.Generated.GenBoot Rig.Generated.GenBootImage Rig.Model.Base Rig.Model.Boot Rig.Spec.Boot.
-Require Import Rig.Proofs.BootBytes Rig.Proofs.BootStruct Rig.Proofs.Boot.
+Require Import Rig.Generated.GenBootCtrl Rig.Model.BootCtrl Rig.Spec.BootCtrl.
+Require Import Rig.Proofs.BootBytes Rig.Proofs.BootStruct Rig.Proofs.Boot Rig.Proofs.BootCtrl.
 Import ListNotations.
 Open Scope Z_scope.
 
@@ -151,6 +152,83 @@ Proof. exact boot_after_unaligned. Qed.
 Theorem C20_boot_terminates :
   forall earlier c, o_result (boot_after earlier c) <> OutOfFuel.
 Proof. exact boot_after_terminates. Qed.
+
+(* An option that names a system variable but whose value its field cannot hold (hw_ver=261, led0=-1, ...):
+   struct.error before a socket exists -- never a normal return, nothing is sent, in any history. *)
+Theorem C20_boot_unrepresentable_raises :
+  forall earlier c,
+    opt_dict_ok (c_overrides c) -> dict_ok (c_kwargs c) ->
+    names_known (match c_overrides c with Some d => d | None => [] end) (s_fields (c_sv c)) ->
+    names_known (c_kwargs c) (s_fields (c_sv c)) ->
+    has_field "unix_time" (s_fields (c_sv c)) = true -> has_field "boot_sig" (s_fields (c_sv c)) = true ->
+    has_field "root_chip" (s_fields (c_sv c)) = true ->
+    (exists f, In f (described_fields c) /\ pack_value (f_pack f) (f_default f) = None) ->
+    o_result (boot_after earlier c) = OtherError /\ o_datagrams (boot_after earlier c) = [] /\
+    o_dest (boot_after earlier c) = None.
+Proof. exact boot_after_unrepresentable. Qed.
+
+(* ---- The other entry points (Model/BootCtrl.v; their shape is re-extracted from the source on every run into
+   Generated/GenBootCtrl.v, fail closed).  Operations of a process: create a controller, boot() directly, boot
+   through controller k with the deprecated width / height and any keywords.  [state_after ops] is the process
+   after the operations ops of the repaired code. *)
+
+(* Booting through a controller, after any operations: the outcome is that of
+   boot(controller's host, boot_port = the keyword or else the controller's, same image / struct file /
+   sv_overrides / keywords) in a fresh process; width and height play no part.  All theorems above therefore
+   apply to it with c := ctrl_call ct c. *)
+Theorem C20_controller_boot_is_boot :
+  forall before k w h c ct,
+    nth_error (p_ctrls (state_after before)) k = Some ct ->
+    snd (op_step boot_step (state_after before) (OpCtrlBoot k w h c)) = Some (boot_alone (ctrl_call ct c)).
+Proof. exact ctrl_boot_is_boot. Qed.
+
+(* The controllers after any sequence of operations are exactly spec_ctrls (Spec/BootCtrl.v): only a boot through
+   controller k that returns changes controller k, to the struct file of that call with that call's values;
+   the shared default dictionary is never changed. *)
+Theorem C20_controllers_refine :
+  forall ops, Forall op_ok ops ->
+    p_shared (state_after ops) = initial_shared /\ p_ctrls (state_after ops) = spec_ctrls ops [].
+Proof. exact controllers_refine. Qed.
+
+(* Hence: each controller's structs describe its OWN last boot, whatever was booted afterwards through other
+   controllers or directly, and whichever controllers were created. *)
+Theorem C20_controller_describes_own_last_boot :
+  forall before k w h c after ct fs,
+    Forall op_ok (before ++ OpCtrlBoot k w h c :: after) ->
+    nth_error (p_ctrls (state_after before)) k = Some ct ->
+    o_result (boot_alone (ctrl_call ct c)) = Ok fs ->
+    Forall (fun o => ~ boots_through k o) after ->
+    nth_error (p_ctrls (state_after (before ++ OpCtrlBoot k w h c :: after))) k
+    = Some (mkctrl (k_host ct) (k_boot_port ct) (mksdef (s_size (c_sv c)) (described_fields (ctrl_call ct c)))).
+Proof. exact ctrl_describes_own_last_boot. Qed.
+
+(* rig-boot: the flag table the tool builds (dumped from a live run of its main()) is the documented one and
+   coincides with the presets of boot.py; and `rig-boot HOST [--flag]` sends what boot(HOST, **options) sends. *)
+Theorem C20_rig_boot_table :
+  rig_boot_no_flag = [] /\
+  rig_boot_flags = [("--spin1", [("hw_ver", 1); ("led0", 483588)]); ("--spin2", [("hw_ver", 2); ("led0", 24835)]);
+                    ("--spin3", [("hw_ver", 3); ("led0", 1282)]); ("--spin4", [("hw_ver", 4); ("led0", 1)]);
+                    ("--spin5", [("hw_ver", 5); ("led0", 1)])]%string /\
+  map snd rig_boot_flags = [spin1_boot_options; spin2_boot_options; spin3_boot_options; spin4_boot_options;
+                            spin5_boot_options].
+Proof. exact rig_boot_table. Qed.
+
+Theorem C20_rig_boot_is_boot :
+  forall host flag opts clock,
+    rig_boot_options flag = Some opts ->
+    snd (run_ops boot_step initial_pstate (cli_ops host flag clock 0)) =
+    [None; Some (boot_alone (mkcall host (Some ctrl_default_boot_port) scamp_boot live_sv None opts clock))].
+Proof. exact cli_boot_is_boot. Qed.
+
+Example C20_unrepresentable_satisfiable :
+  exists f, In f (described_fields misfit_call) /\ pack_value (f_pack f) (f_default f) = None.
+Proof. exact misfit_example. Qed.
+
+(* SpiNN-3 through the first controller (with width = height = 8), then no options through the second: the first
+   controller's structs still say hw_ver = 3, the second's 0 *)
+Example C20_two_controllers :
+  map (fun ct => nth 6 (map f_default (s_fields (k_sv ct))) (-1)) (p_ctrls (state_after two_ctrl_ops)) = [3; 0].
+Proof. exact two_ctrl_example. Qed.
 
 (* Non-vacuity and the live data. *)
 Example C20_domain_satisfiable : call_in_domain example_call.
